@@ -55,11 +55,11 @@ def _api_surface(ctx):
     listed as NOT modelled)"""
     import os
     import re
-    known = {"ExtractArchive": "Ex.tarExtractArchiveR / zipExtractArchiveR (v:a, v:missing, v:cut)",
-             "ExtractArchiveWithMask": "Ex.tarExtractArchiveWithMaskR / zipExtractArchiveWithMaskR (v:am, v:missing, v:cut)",
-             "Extract": "Ex.tarExtractDefaultR / zipExtractDefaultR (v:x)",
-             "ExtractWithMask": "Ex.tarExtractWithMaskFrom / zipExtractWithMaskFrom (areas dstform, closefault), "
-                                "Ex.tarExtractR / zipExtractR on the absolute destination (areas extract, dstlinkm)"}
+    known = {"ExtractArchive": "Ex.tarExtractArchiveF / zipExtractArchiveF (v:a, v:missing, v:cut)",
+             "ExtractArchiveWithMask": "Ex.tarExtractArchiveWithMaskF / zipExtractArchiveWithMaskF (v:am, v:missing, v:cut)",
+             "Extract": "Ex.tarExtractDefaultF / zipExtractDefaultF (v:x)",
+             "ExtractWithMask": "Ex.tarExtractWithMaskFromF / zipExtractWithMaskFromF (areas dstform, closefault), "
+                                "Ex.tarExtractF / zipExtractF on the absolute destination (areas extract, dstlinkm)"}
     out = {}
     for rel in ("xio/fs/tar/untar.go", "xio/fs/zip/unzip.go"):
         try:
@@ -179,8 +179,9 @@ def run(ctx):
         "sub-directory, the sandbox itself, the sibling) with the process standing in T, T/outside or T/dst",
         "close fault (area closefault, needs strace; skipped and said so without it): the extraction runs in a child "
         "process under `strace -P <T/dst/path> -e inject=close:error=EIO`, so exactly the close(2) of descriptors of that "
-        "one extracted file fails after its payload was copied completely; model: that entry has short = true with "
-        "its data complete (C19.payload_error_one / payload_error_propagates: an error, the file stays)",
+        "one extracted file fails after its payload was copied completely; model: Ex.Faults.closeFails of the copy step "
+        "Ex.extractFileR (open, write*, deferred close; C19.write_close_fault_is_error, copy_step_spec: an error, the "
+        "file stays); the write limit (w:) is Ex.Faults.writeLimit of the same copy step",
     ]
     ctx.lean(props=["Props.C19"], drivers=["drv_c19"])
     # white-box accessor for the guard (xio/fs/internal is not importable from outside): area `guard`; if it does not
@@ -212,8 +213,8 @@ def run(ctx):
         ctx.diff(area="closefault", driver="drv_c19", n={"quick": 100, "thorough": 1500},
                  trivial=lambda l, o: " e:" not in l, tagger=lambda l, o: "closefault:" + o.split(" ", 1)[0],
                  timeout=(240 if ctx.tier == "quick" else 900),
-                 theorem="C19.payload_error_one / payload_error_propagates (an entry that cannot be written in full is an "
-                         "error): close(2) of an extracted file failed and impl != model")
+                 theorem="C19.write_close_fault_is_error / copy_step_spec (a failing close(2) of an extracted file is an error): "
+                         "close(2) failed and impl != model")
         ctx.extra["closefault"] = "strace -P <file> -e inject=close:error=EIO on a child process"
     else:
         ctx.extra["closefault"] = "skipped: strace not found"
